@@ -20,6 +20,82 @@ def monitor(s, a, rt):
     return c04_monitor(s, a, rt) + c01_monitor(s, a, rt)
 
 
+def probe_property_callbacks():
+    """Directed family: guards and actions referenced by name that are *properties* (or plain attributes) of the
+    model; the getter works at construction and later raises — an AttributeError, a KeyError or a user
+    exception. Like any failing callback: the exception reaches the caller, the state is the source (guards, before,
+    on) or the target (after), queued events are dropped and the next event is processed normally."""
+    import warnings
+    from statemachine import State, StateMachine
+    fails, cases = [], 0
+
+    class Custom(Exception):
+        pass
+
+    for where, expect_state in (("cond", "a"), ("unless", "a"), ("validators", "a"), ("before", "a"), ("on", "a"),
+                                ("after", "b")):
+        for exc in (AttributeError, KeyError, Custom, LookupError):
+            for rtc in (True, False):
+                class Mdl:
+                    state = None
+                    boom = None
+                    log = []
+
+                    def _get(self, name, value):
+                        if self.boom == name:
+                            raise exc(name)
+                        return value
+
+                for nm, val in (("p_cond", True), ("p_unless", False), ("p_validators", None), ("p_before", 1),
+                                ("p_on", 2), ("p_after", 3)):
+                    setattr(Mdl, nm, property((lambda nm, val: lambda self: self._get(nm, val))(nm, val)))
+                with warnings.catch_warnings():
+                    warnings.simplefilter("ignore")
+
+                    class PM(StateMachine):
+                        a = State(initial=True)
+                        b = State()
+                        go = a.to(b, cond="p_cond", unless="p_unless", validators="p_validators", before="p_before",
+                                  on="p_on", after="p_after")
+                        back = b.to(a)
+                        nxt = b.to(a) | a.to(a)
+
+                        def on_enter_b(self):
+                            self.send("nxt")       # queued (rtc) behind `go`: dropped if `go` fails afterwards
+
+                    m = Mdl()
+                    Mdl.log = []
+                    try:
+                        sm = PM(m, rtc=rtc)
+                    except Exception as e:
+                        fails.append(f"construction with property callbacks failed: {type(e).__name__}: {e}")
+                        continue
+                cases += 1
+                m.boom = "p_" + where
+                try:
+                    r = sm.go()
+                    fails.append(f"property `p_{where}` raised {exc.__name__} inside `{where}` (rtc={rtc}) but go() returned "
+                                 f"{r!r}; state {sm.current_state.id}")
+                    continue
+                except exc:
+                    pass
+                except Exception as e:
+                    fails.append(f"property `p_{where}` raised {exc.__name__} (rtc={rtc}) but the caller got {type(e).__name__}: {e}")
+                    continue
+                if rtc and sm.current_state.id != expect_state:
+                    fails.append(f"failure in `{where}` (property, {exc.__name__}): state {sm.current_state.id}, expected {expect_state}")
+                m.boom = None
+                try:
+                    if sm.current_state.id == "b":
+                        sm.back()
+                    sm.go()
+                    if sm.current_state.id not in ("a", "b"):
+                        fails.append("unexpected state after recovery")
+                except Exception as e:
+                    fails.append(f"machine not usable after a failing property callback in `{where}` (rtc={rtc}): {type(e).__name__}: {e}")
+    return cases, fails
+
+
 def run(ctx):
     ctx.level = "proof"
     lean_obligations(ctx)
@@ -30,6 +106,10 @@ def run(ctx):
                             "was reached (a user exception escaped send); distinct = hash of scenario text")
     from framework import run_py_corpus
     ctx.coverage["corpus_programs"] = run_py_corpus(ctx)
+    ncases, pf = probe_property_callbacks()
+    ctx.coverage["property_callback_cases"] = ncases
+    if pf:
+        ctx.violation(ctx.write_replay("property_callbacks.txt", "\n".join(pf[:12]) + "\n"), pf[0])
     k = 5 if ctx.tier == "quick" else 40
     engine_check(ctx, PROFILE, 900, 30000, nontrivial, monitor=monitor, tag="C04s", expand=fault_variants(k))
     cov1 = dict(ctx.coverage)
